@@ -4,6 +4,7 @@ HARNESSES = [
     dict(name="c03", kind="sched", srcs=["harness/c03/c03_doall.cpp"]),
     dict(name="c04", kind="sched", srcs=["harness/c04/c04_term.cpp"]),
     dict(name="c06", kind="schedn", srcs=["harness/c06/c06_locks.cpp"]),
+    dict(name="c10", kind="sched", srcs=["harness/c10/c10_morph.cpp"]),
     dict(name="c05", kind="sched", srcs=["harness/c05/c05_barrier.cpp"]),
     dict(name="c16", kind="native", srcs=["harness/c16/c16_pstl.cpp"]),
     dict(name="c16e1", kind="sched", srcs=["harness/c16/c16_pstl.cpp"], defs=["-DC16_E1"]),
@@ -160,6 +161,21 @@ PROPS = {
         level_note="trusted: as C01; operator end is used as a sound under-approximation of the runtime's commit",
         assumptions=["programs create only work of strictly later level than their own", "as C01"],
     ),
+    "C10": dict(
+        variants={"sched": ["galois_shmem"]},
+        units=[dict(type="rc", harness="c10", quick=16000, thorough=250000)],
+        engine="gsched+rapidcheck",
+        technique="model-based property testing: rapidcheck-generated cautious mutation programs (add/remove node, addEdge with duplicate check, addMultiEdge, removeEdge, findEdge, edge/node data updates, neighbour scans) inside for_each under controlled schedules; the commit-ticket log is replayed sequentially on a reference adjacency model and compared with a full structural dump through the public API, reads compared at their ticket",
+        rule=("cases = (flavour directed|directed in/out|undirected|sorted neighbours|no-lockable(1 thread), threads 1..8, 1..12 initial "
+              "nodes, initial edges, 1..149 PRF-defined operators over heavily overlapping node pairs, delays, schedule); non-trivial = "
+              ">=2 threads AND >=1 conflict abort AND >=1 node removal AND >=1 duplicate-checked edge insertion; distinct = hash of case"),
+        level_text=("Oracle: node set (each live node once), per node the multiset of (dst,data) out-edges and in-edges == serial replay in "
+                    "commit order; findEdge/data/scan reads equal the model at their ticket; no edge to a removed node; sorted flavour in "
+                    "destination order; an edge and its reverse entry share the same data cell (by address). Exploration only."),
+        level_note="trusted: the reference model; Morph_SepInOut_Graph and MorphHyperGraph are not instantiated; self loops are not generated (an undirected self loop is stored as two entries)",
+        assumptions=["operators are cautious: every node used is touched with getData(n, WRITE) (and scans iterate edges) before the commit point",
+                     "removed nodes are never re-added; parallel edges of one pair carry equal data; where the implementation may legally pick either of several parallel edges the case is marked ambiguous and only structure is compared"],
+    ),
     "C13": dict(
         variants={"native": ["galois_shmem"]},
         units=[dict(type="rc", harness="c13", quick=400000, thorough=10000000, enumerate=True, workers=8)],
@@ -215,9 +231,9 @@ PROPS = {
 }
 
 ENGINES = [
-    dict(name="gsched", path="engine/gsched", serves_properties=["C01", "C02", "C03", "C04", "C05", "C06", "C07", "C08", "C16"],
+    dict(name="gsched", path="engine/gsched", serves_properties=["C01", "C02", "C03", "C04", "C05", "C06", "C07", "C08", "C10", "C16"],
          kind_free_text="schedule-owning runtime behind clang's TSan instrumentation ABI + pthread interposition; vector-clock HB tracker"),
-    dict(name="rapidcheck fork driver", path="harness/common/verif_e1.h", serves_properties=["C01", "C02", "C03", "C04", "C05", "C06", "C07", "C08", "C16"],
+    dict(name="rapidcheck fork driver", path="harness/common/verif_e1.h", serves_properties=["C01", "C02", "C03", "C04", "C05", "C06", "C07", "C08", "C10", "C16"],
          kind_free_text="rapidcheck generation/shrinking in a parent process, one forked child per case, replay files"),
 ]
 
